@@ -3,6 +3,7 @@ package scripting
 //verif:dir internal/server/tables/scripting
 
 import (
+	"fmt"
 	"bytes"
 	"database/sql"
 	"errors"
@@ -67,16 +68,26 @@ func c17Native() {
 		nTasks = 2
 	}
 	hasCond := false
+	var opcodes []int
 	for i := 0; i < nTasks; i++ {
-		_ = sym.Choice("opcode", 8)
+		opcodes = append(opcodes, sym.Choice("opcode", 9))
 		if sym.Bool("hasCondition") {
 			hasCond = true
 		}
 	}
 	unparsable, evalBad, condTrue := sym.Bool("conditionUnparsable"), sym.Bool("conditionFailsToEvaluate"), sym.Bool("conditionTrue")
 	_ = condTrue
-	// only this fault class has a native twin
-	sym.Assume(hasCond && evalBad && !unparsable)
+	// two classes have a native twin: (a) a condition that cannot be evaluated,
+	// (b) fault-free requests made of insert / sql / shorthand-sql operations
+	faultFree := !hasCond && !sym.Bool("openFails") && !sym.Bool("beginFails") && !sym.Bool("commitFails")
+	for range opcodes {
+		faultFree = faultFree && !sym.Bool("opFails")
+	}
+	for _, op := range opcodes {
+		faultFree = faultFree && (op == 0 || op == 5 || op == 8)
+	}
+	classA := hasCond && evalBad && !unparsable
+	sym.Assume(classA || faultFree)
 
 	dir, err := os.MkdirTemp("", "c17-")
 	if err != nil {
@@ -98,6 +109,20 @@ func c17Native() {
 	defer func() { dsns.DSNService = saved }()
 
 	body := `[{"operation":"insert","table":"t","data":{"a":1},"errors":[{"condition":"EQ(no_such_symbol, 1)"}]}]`
+	if !classA {
+		var parts []string
+		for i, op := range opcodes {
+			switch op {
+			case 0:
+				parts = append(parts, fmt.Sprintf(`{"operation":"insert","table":"t","data":{"a":%d}}`, 10+i))
+			case 5:
+				parts = append(parts, fmt.Sprintf(`{"operation":"sql","sql":"INSERT INTO t (a) VALUES (%d)"}`, 10+i))
+			default:
+				parts = append(parts, fmt.Sprintf(`{"sql":"INSERT INTO t (a) VALUES (%d)"}`, 10+i))
+			}
+		}
+		body = "[" + strings.Join(parts, ",") + "]"
+	}
 	r := &http.Request{Method: "POST", Header: http.Header{}, Body: io.NopCloser(strings.NewReader(body))}
 	s := &router.Session{ID: 1, User: "admin", Admin: true, Authenticated: true, Language: "en", URLParts: map[string]any{"dsn": "d"}}
 	w := &c17Recorder{hdr: http.Header{}}
@@ -113,6 +138,14 @@ func c17Native() {
 	_, werr := probe.Exec(`INSERT INTO t (a) VALUES (2)`)
 	held := werr != nil && strings.Contains(strings.ToLower(werr.Error()), "lock")
 	sym.Assert(!held, "the request returned with its database transaction still open")
+	if !classA && status == http.StatusOK {
+		for i := range opcodes {
+			var n int
+			if err := probe.QueryRow(`SELECT count(*) FROM t WHERE a = ?`, 10+i).Scan(&n); err == nil {
+				sym.Assert(n == 1, "success was reported although not every operation of the request was applied, once and in order")
+			}
+		}
+	}
 	if status >= 400 {
 		var n int
 		if err := probe.QueryRow(`SELECT count(*) FROM t WHERE a = 1`).Scan(&n); err == nil {
